@@ -1014,6 +1014,205 @@ def run_C15(pid, tier, seed, model_ok=True):
                 dist={'symbols': len(syms)}, extras=extras, traces=2)
 
 
+
+# ------------------------------------------------------------------ C04 (crash / fault injection)
+SHIM = os.path.join(CACHE, 'shim.so')
+
+
+def build_shim():
+    src = os.path.join(ROOT, 'shim', 'shim.c')
+    if not os.path.exists(SHIM) or os.path.getmtime(SHIM) < os.path.getmtime(src):
+        p = sh(['gcc', '-shared', '-fPIC', '-O1', '-o', SHIM, src, '-ldl'])
+        if p.returncode != 0:
+            raise InfraError('shim build failed: ' + p.stderr)
+
+
+def c04_targets(ctx, al, tier):
+    """(name, ops before target, target op lines (last one is the target), init tokens for recovery, kind)"""
+    T = []
+    states = ['empty', 'pend1', 'boot1', 'good1', 'good1pend2', 'good1boot2', 'good1boot2pend3', 'good2pend1']
+    single = ['u1', 'u2', 'u3', 's', 'ok', 'fail', 'rb1', 'rb2', 'rb12', 'ck2', 'q', 'u3rb2', 'crb1', 'u1b']
+    if tier == 'quick':
+        states = ['pend1', 'boot1', 'good1pend2', 'good1boot2', 'good1boot2pend3']
+        single = ['u2', 'u3', 's', 'ok', 'fail', 'rb1', 'rb2', 'q', 'u3rb2']
+    init_toks = al.init.split()[1:]
+    rv_init = op_init(rel=REL2).split()[1:]
+    for stt in states:
+        pre = [al.init] + al.seq(PFX[stt])
+        for t in single:
+            T.append(('%s_%s' % (stt, t), pre, al.ops[t], init_toks, 'same'))
+        # selection damaged, then a query falls back
+        for dmg in ('dD1', 'dT2', 'dD2'):
+            T.append(('%s_%s_q' % (stt, dmg), pre + al.ops[dmg], ['op nextnum'], init_toks, 'same'))
+        # process restart with crash detection, and first launch of another release
+        T.append(('%s_R' % stt, pre + ['op kill'], [al.init], init_toks, 'same'))
+        T.append(('%s_RV' % stt, pre + ['op kill'], [op_init(rel=REL2)], rv_init, 'relchange'))
+        T.append(('%s_sjgarbage_R' % stt, pre + ['op kill', 'op dmg sj garbage'], [al.init], init_toks, 'relchange'))
+    return T
+
+
+def run_C04(pid, tier, seed, model_ok=True):
+    from concurrent.futures import ThreadPoolExecutor
+    build_shim()
+    rnd = random.Random(seed)
+    ctx = Ctx(seed=seed)
+    work = os.path.join(CACHE, 'work-%s-%d' % (pid, os.getpid()))
+    os.makedirs(work, exist_ok=True)
+    try:
+        al = gen.Alphabet(ctx)
+        header = ctx.header()
+        targets = c04_targets(ctx, al, tier)
+        tail = ['op nextnum', 'op nextpath', 'op curnum', 'op kill', al.init, 'op nextnum', 'op nextpath', 'op curnum']
+        fails, divs, extras, samples = [], [], [], []
+        evals = 0
+        distinct = set()
+        hit_states = set()
+
+        def state_of(line):
+            return line[line.index(' sj=') + 1:line.index(' net=')]
+
+        def one(t):
+            name, pre, tops, init_toks, kind = t
+            res = dict(name=name, crash=[], fail=[], problems=[], model_crash=set(), model_rec={}, model_fail=set(), ops=None)
+            d = os.path.join(work, name)
+            os.makedirs(d, exist_ok=True)
+            ops = pre + tops
+            res['ops'] = ops
+            cut_index = len(ops)          # 1-based index of the target op among `op` lines
+            f = os.path.join(d, 'x.ops')
+            # ---- model: crash set and fail set of the target op
+            for mode in ('crashop', 'failop'):
+                mf = os.path.join(d, mode + '.ops')
+                with open(mf, 'w') as fh:
+                    fh.write('\n'.join(header) + '\nhistory %s\n' % name + '\n'.join(pre + tops[:-1]) + '\n%s\n%s\n' % (mode, tops[-1]))
+                if model_ok:
+                    mo = subprocess.run([DRIVER, mf], capture_output=True, text=True, timeout=600)
+                    if mo.returncode != 0:
+                        res['problems'].append('model analysis failed: ' + mo.stderr[-300:])
+                    for l in mo.stdout.splitlines():
+                        if l.startswith('CRASHSET '):
+                            st, rec = l[9:].split(' || ')
+                            res['model_crash'].add(st)
+                            res['model_rec'].setdefault(st, set()).add(rec)
+                        elif l.startswith('FAILSET '):
+                            res['model_fail'].add(l[8:])
+            write_opfile(f, header, [(name, ops + tail)])
+            env = dict(os.environ, LD_PRELOAD=SHIM, UVH_KEEP='1', UVH_CUT_OP=str(cut_index))
+            # uncut run (reference)
+            ref = subprocess.run([UVH, 'replay', f, os.path.join(d, 'ref')], capture_output=True, text=True)
+            res['ref'] = [l for l in ref.stdout.splitlines() if l.startswith('out=')]
+            # ---- crash at every mutating system call of the target op
+            for k in range(0, 80):
+                wd = os.path.join(d, 'c%d' % k)
+                r = subprocess.run([UVH, 'replay', f, wd], capture_output=True, text=True, env=dict(env, SHIM_CUT=str(k)))
+                if r.returncode == 0:
+                    shutil.rmtree(wd, ignore_errors=True)
+                    break
+                if r.returncode != 137:
+                    res['problems'].append('crash run k=%d ended with rc=%d %s' % (k, r.returncode, r.stderr[-200:]))
+                    shutil.rmtree(wd, ignore_errors=True)
+                    break
+                a = subprocess.run([UVH, 'after', os.path.join(wd, 'h_' + name)] + init_toks, capture_output=True, text=True)
+                lines = [l for l in a.stdout.splitlines() if l.startswith('out=')]
+                if a.returncode != 0 or len(lines) != 2:
+                    res['problems'].append('next launch after a kill at step %d did not complete: rc=%d %s %s' % (k, a.returncode, a.stdout[-200:], a.stderr[-200:]))
+                else:
+                    res['crash'].append((k, state_of(lines[0]), lines[1][4:lines[1].index(' net=')], r.stderr.strip().splitlines()[-1:] ))
+                shutil.rmtree(wd, ignore_errors=True)
+            # ---- one failing system call, execution continues
+            for k in range(0, 80):
+                wd = os.path.join(d, 'f%d' % k)
+                r = subprocess.run([UVH, 'replay', f, wd], capture_output=True, text=True, env=dict(env, SHIM_FAIL=str(k), UVH_KEEP=''))
+                lines = [l for l in r.stdout.splitlines() if l.startswith('out=')]
+                reached = 'SHIM FAIL' in r.stderr
+                shutil.rmtree(wd, ignore_errors=True)
+                if r.returncode != 0 or len(lines) != len(ops) + len(tail):
+                    res['problems'].append('run with failing step %d: rc=%d, %d of %d results %s' % (k, r.returncode, len(lines), len(ops) + len(tail), r.stdout[-200:]))
+                    break
+                if not reached:
+                    break
+                res['fail'].append((k, lines, [x for x in r.stderr.splitlines() if 'SHIM FAIL' in x][-1:]))
+            shutil.rmtree(d, ignore_errors=True)
+            return res
+
+        with ThreadPoolExecutor(max_workers=NPROC) as ex:
+            results = list(ex.map(one, targets))
+        kinds = {t[0]: t[4] for t in targets}
+        for res in results:
+            name = res['name']
+            ops = res['ops']
+            for pmsg in res['problems']:
+                fails.append((name, len(ops) - 1, 'C04: ' + pmsg, ops, header))
+            ref = res['ref']
+            pre_state = parse_line(ref[len(ops) - 2]) if len(ref) >= len(ops) - 1 and len(ops) >= 2 else monitors.EMPTY
+            bad_before = set(pstate(pre_state)['bad']) if kinds[name] == 'same' else set()
+            for (k, st, rec, where) in res['crash']:
+                evals += 1
+                distinct.add((name, st))
+                if model_ok:
+                    if st not in res['model_crash']:
+                        divs.append((name, len(ops) - 1, 'no model crash state equals the real one (kill at real step %d %s)' % (k, where), st, ops, header))
+                    elif rec not in res['model_rec'][st]:
+                        divs.append((name, len(ops) - 1, 'recovery differs after kill at step %d: model %s' % (k, sorted(res['model_rec'][st])[:1]), rec, ops, header))
+                    else:
+                        hit_states.add((name, st))
+                # the property itself, on the implementation's recovery
+                outs, rstate = rec.split(' ', 1)
+                o = outs.split(',')
+                cst = parse_line('out=x ' + st + ' net=')
+                rst = parse_line('out=x ' + rstate + ' net=')
+                if o[0] not in ('true', 'false'):
+                    fails.append((name, len(ops) - 1, 'C04: next launch after kill at step %d did not initialise (%s)' % (k, outs), ops, header))
+                if o[1] != '0':
+                    n = int(o[1])
+                    nb = pstate(rst)['nb']
+                    art = rst['arts'].get(n, '')
+                    why = None
+                    if nb is None or nb['num'] != n or not art.startswith('F%d.' % nb['size']):
+                        why = 'not intact'
+                    elif n in bad_before:
+                        why = 'banned before the interrupted call'
+                    elif pstate(cst)['cb'] and pstate(cst)['cb']['num'] == n:
+                        why = 'its own launch was in progress when the process died'
+                    elif kinds[name] == 'relchange':
+                        why = 'a patch of another release (crash_in_release_change)'
+                    if why:
+                        fails.append((name, len(ops) - 1, 'C04: after a kill at step %d %s the next launch selects patch %d: %s' % (k, where, n, why), ops, header))
+            for (k, lines, where) in res['fail']:
+                evals += 1
+                st = state_of(lines[len(ops) - 1])
+                distinct.add((name, 'F', st))
+                if model_ok and st not in res['model_fail']:
+                    divs.append((name, len(ops) - 1, 'no model outcome of a failing step equals the real state (failing real step %d %s)' % (k, where), st, ops, header))
+                sts = [parse_line(l) for l in lines]
+                # patch selected afterwards, in this process and at the next launch
+                for j in range(len(ops), len(sts)):
+                    out = sts[j]['out']
+                    n = int(out) if out.isdigit() and out != '0' and (ops + tail)[j].endswith('nextnum') else None
+                    if n is None:
+                        continue
+                    nb = pstate(sts[j])['nb']
+                    art = sts[j]['arts'].get(n, '')
+                    why = None
+                    if nb is None or nb['num'] != n or not art.startswith('F%d.' % nb['size']):
+                        why = 'not intact'
+                    elif n in bad_before:
+                        why = 'banned before the failing call'
+                    elif kinds[name] == 'relchange':
+                        why = 'a patch of another release (fault_in_reset_of_release_change)'
+                    if why:
+                        fails.append((name, j, 'C04: with system call %d %s failing, patch %d is selected afterwards: %s' % (k, where, n, why), ops + tail, header))
+            if len(samples) < 6 and res['crash']:
+                samples.append({'target': name, 'kill_points': len(res['crash']), 'failing_calls': len(res['fail']), 'model_crash_states': len(res['model_crash']),
+                                'example': res['crash'][0][1][:160]})
+        return dict(evaluations=evals, distinct=len(distinct), samples=samples, divergences=divs, monitor_fail=fails,
+                    rule='for %d (state, call) targets incl. restart with crash detection, first launch of another release, unreadable state.json: the real process is killed (LD_PRELOAD shim) before each mutating system call of the call, the next launch is played; and each mutating call is made to fail with EIO once with execution continuing. Real crash/fault states must be among the model\'s (all k, all partial-deletion subsets), recoveries equal; safety judged on the implementation; non-trivial = distinct (target, abstract crash state); model crash states hit: %d' % (len(targets), len(hit_states)),
+                    dist={'targets': len(targets)}, extras=extras, traces=evals)
+    finally:
+        ctx.cleanup()
+        shutil.rmtree(work, ignore_errors=True)
+
+
 def mk(build, mons, trig, rule, **kw):
     d = dict(mons=mons, run=lambda pid, tier, seed, model_ok=True: run_lifecycle(pid, tier, seed, build, mons, trig, rule, model_ok=model_ok))
     d.update(kw)
@@ -1021,6 +1220,7 @@ def mk(build, mons, trig, rule, **kw):
 
 
 PROPS = {
+    'C04': dict(mons=[], run=run_C04, assumptions=['a strict prefix of a pretty-printed JSON object never parses; rename is atomic; process death loses no completed system call (kill, not power loss)']),
     'C13': dict(mons=[], run=run_C13, assumptions=['panics inside dependencies (serde, zstd, ring, std thread spawn) are only exercised, never proved absent']),
     'C15': dict(mons=[], run=run_C15, assumptions=['allocator behaviour is runtime: exercised under valgrind memcheck on one scenario per run']),
     'C12': dict(mons=[], run=run_C12, assumptions=['wall-clock promptness is runtime behaviour: the check enforces a 5 s bound on the hung-connection scenarios and the structural trace properties only']),
